@@ -1,6 +1,12 @@
+mod c0103;
 mod c18;
 mod common;
+mod extract;
+mod gramsweep;
+mod pda;
+mod refgram;
 mod replay;
+mod scopes;
 mod sha256;
 
 use common::*;
@@ -27,6 +33,11 @@ fn main() {
             let ctx = Ctx::new(&id, tier);
             let outcome = match id.as_str() {
                 "C18" => c18::run(&ctx),
+                "C01" => c0103::run(&ctx, "C01"),
+                "C03" => c0103::run(&ctx, "C03"),
+                "C04" => gramsweep::run_c04(&ctx),
+                "C11" => gramsweep::run_c11(&ctx),
+                "C17" => gramsweep::run_c17(&ctx),
                 _ => machinery_error(format!("no check for property {id}")),
             };
             std::process::exit(finalize(&ctx, outcome));
